@@ -60,6 +60,10 @@ pub struct RunCfg {
     pub mid_quiesce: bool,
     pub same_batch_bias: bool,
     pub immediate_notify: u32, // n/4
+    /// C17: clients 0..members are group members (shared subscriptions
+    /// only, group name tied to the filter), the rest are outsiders.
+    pub members: usize,
+    pub will_once: bool,
 }
 
 const TOPICS: &[&str] = &["a/b", "a/c", "a/b/c", "d", "x/y/z", "$SYS/x", "\u{e9}t\u{e9}/b", "a/\u{4e16}"];
@@ -150,6 +154,8 @@ impl RunCfg {
             mid_quiesce: ch.coin(1, 3),
             same_batch_bias: ch.coin(1, 3),
             immediate_notify: ch.range(1, 4),
+            members: 0,
+            will_once: false,
         };
         if cfg.qos_mix.iter().all(|w| *w == 0) {
             cfg.qos_mix[1] = 1;
@@ -177,6 +183,43 @@ impl RunCfg {
                 if cfg.sub_qos_mix[1] + cfg.sub_qos_mix[2] == 0 {
                     cfg.sub_qos_mix[1] = 2;
                 }
+            }
+            P::C15 => {
+                cfg.retained = true;
+                cfg.empty_payload = ch.coin(1, 2);
+                cfg.resub = ch.coin(1, 2);
+                cfg.w_sub = ch.range(2, 5);
+                cfg.w_unsub = ch.range(0, 2);
+                cfg.shared = ch.coin(1, 4);
+                cfg.wills = ch.coin(1, 4);
+                cfg.big_burst = false;
+                cfg.w_burst = ch.pick(2);
+            }
+            P::C16 => {
+                cfg.wills = true;
+                cfg.will_once = true;
+                cfg.w_drop = ch.range(1, 3);
+                cfg.w_disc_pkt = ch.range(1, 3);
+                cfg.retained = ch.coin(1, 3);
+                cfg.big_burst = false;
+            }
+            P::C17 => {
+                // members' shared filters must not overlap each other, or a
+                // forward could belong to two groups of the same member
+                let pool = ["a/+", "d", "x/#", "a/b/c"];
+                let k = ch.range(1, 4) as usize;
+                let start = ch.pick(4) as usize;
+                cfg.filters = (0..k).map(|i| pool[(start + i) % 4]).collect();
+                cfg.topics = vec!["a/b", "a/c", "d", "x/y/z", "a/b/c"];
+                cfg.topics.truncate(ch.range(2, 5) as usize);
+                cfg.shared = true;
+                cfg.members = ch.range(2, 4).min(cfg.n_clients as u32) as usize;
+                cfg.w_pub = ch.range(3, 9);
+                cfg.w_burst = ch.range(0, 3);
+                cfg.w_unsub = ch.range(0, 2);
+                cfg.w_drop = ch.pick(2);
+                cfg.w_disc_pkt = ch.pick(2);
+                cfg.resub = false;
             }
             P::C03 => {
                 cfg.rogue = true;
@@ -249,7 +292,7 @@ struct Link {
     unnotified: u32,
     ready_owed: u32,
     /// Forwards (QoS>0) drained and not yet acknowledged by the client model.
-    awaiting: VecDeque<u16>,
+    awaiting: VecDeque<(u16, Option<(String, usize)>)>,
     got_router_disconnect: bool,
     will_pending: bool,
     forwards_seen: u32,
@@ -259,6 +302,10 @@ struct Link {
     owed_comp: VecDeque<u16>,
     /// PUBRELs to send for own QoS 2 publishes (after the broker's PUBREC).
     out_rel: VecDeque<u16>,
+    /// Receiver half kept after the link ended, only to read what the router
+    /// still pushed into the (now unread) outgoing buffer.
+    dead_rx: Option<LinkRx>,
+    qos_forwards: u32,
 }
 
 pub struct World {
@@ -425,6 +472,32 @@ impl World {
     /// Delivery-exactness rules (C01's oracle): a violation under the
     /// properties that include them, a foreign abort elsewhere.
     fn c01_viol(&mut self, class: impl Into<String>, message: impl Into<String>) {
+        let class: String = class.into();
+        let message: String = message.into();
+        if self.prop == P::C16 {
+            // only will messages (payload w<n>) are this property's business
+            if message.contains("/w") || message.contains("payload=w") {
+                let class = match class.as_str() {
+                    "forward_unknown_message" => "will_published_unexpectedly".to_string(),
+                    "duplicate_or_reordered_delivery" => "will_published_twice".to_string(),
+                    c if c.starts_with("undelivered_at_quiescence") => "will_not_delivered".to_string(),
+                    c => format!("will:{c}"),
+                };
+                self.viol(class, message);
+            } else {
+                self.foreign(format!("c01:{class}"));
+            }
+            return;
+        }
+        if self.prop == P::C06 {
+            // only the QoS 2 release clause is this property's business
+            if class == "qos2_forwarded_before_release" {
+                self.viol(class, message);
+            } else {
+                self.foreign(format!("c01:{class}"));
+            }
+            return;
+        }
         if matches!(self.prop, P::C01 | P::C14 | P::C08) {
             self.viol(class, message)
         } else {
@@ -499,6 +572,8 @@ impl World {
             owed_ack: VecDeque::new(),
             owed_comp: VecDeque::new(),
             out_rel: VecDeque::new(),
+            dead_rx: None,
+            qos_forwards: 0,
         });
         self.evq.push_back((l, hook::EV_CONNECT));
         if let Some(old) = self.clients[c].link {
@@ -713,7 +788,7 @@ impl World {
         link.state = LState::Ended;
         // `tx` is kept only as the handle to the shared incoming buffer: what
         // the link pushed before it ended is still taken by the router
-        link.rx = None;
+        link.dead_rx = link.rx.take();
         link.pending = None;
         link.will_pending = true;
         if self.clients[c].link == Some(l) {
@@ -769,8 +844,9 @@ impl World {
         // C09: window invariants, from the client's point of view
         if qos > 0 {
             let link = &mut self.links[l];
-            let dup_id = link.awaiting.contains(&pkid);
-            link.awaiting.push_back(pkid);
+            link.qos_forwards += 1;
+            let dup_id = link.awaiting.iter().any(|(p, _)| *p == pkid);
+            link.awaiting.push_back((pkid, None));
             let n = link.awaiting.len();
             if self.prop == P::C09 || self.prop == P::C14 {
                 if pkid == 0 {
@@ -820,9 +896,33 @@ impl World {
         if retain {
             // one-off replay of a retained message (C15 judges those)
             self.rep.probe("retained_replay");
+            if self.prop == P::C15 {
+                self.on_retained_forward(l, conn, topic, payload, qos);
+            }
             return;
         }
-        if self.spec.conns[conn].unchecked || matches!(self.prop, P::C03 | P::C06) {
+        if self.spec.conns[conn].unchecked || matches!(self.prop, P::C03) {
+            return;
+        }
+        // forwards through a shared group (C17)
+        let has_shared = self.spec.conns[conn]
+            .session
+            .subs
+            .iter()
+            .any(|s| s.group.is_some() && spec_matches(topic, &self.spec.flogs[s.flog].filter));
+        if has_shared {
+            let has_plain = self.spec.conns[conn]
+                .session
+                .subs
+                .iter()
+                .any(|s| s.group.is_none() && spec_matches(topic, &self.spec.flogs[s.flog].filter));
+            if has_plain {
+                // the statement does not say how the two are told apart
+                self.spec.conns[conn].unchecked = true;
+                self.rep.probe("shared_and_plain_overlap_unchecked");
+                return;
+            }
+            self.on_shared_forward(l, conn, topic, payload, qos);
             return;
         }
         let small_retention = self.cfg.seg_size < 1 << 20;
@@ -1002,7 +1102,16 @@ impl World {
             .iter()
             .any(|a| a.topic == topic && a.payload == payload);
         let p = String::from_utf8_lossy(payload).to_string();
-        if !known {
+        let unreleased = spec
+            .conns
+            .iter()
+            .any(|k| k.qos2_in.iter().any(|a| a.topic == topic && a.payload == payload));
+        if !known && unreleased {
+            self.c01_viol(
+                "qos2_forwarded_before_release",
+                format!("c{c} received {topic}/{p}: a QoS 2 publish the broker has received but whose PUBREL it has not yet processed"),
+            );
+        } else if !known {
             self.c01_viol(
                 "forward_unknown_message",
                 format!("c{c} received topic={topic} payload={p}, which no client published in this form"),
@@ -1031,6 +1140,190 @@ impl World {
                 "delivery_not_expected",
                 format!("c{c} received {topic}/{p}, accepted before its matching subscription took effect or not next in order"),
             );
+        }
+    }
+
+    /// C15: a forward flagged retain=1 must be the one-off replay owed to a
+    /// new, non-shared subscription of this connection.
+    fn on_retained_forward(&mut self, l: usize, conn: usize, topic: &str, payload: &[u8], qos: u8) {
+        let c = self.links[l].client;
+        let p = String::from_utf8_lossy(payload).to_string();
+        let n = self.spec.conns[conn].session.subs.len();
+        let mut matching_any = false;
+        let mut matching_pending = false;
+        let mut already_seen = false;
+        let mut value_ok_somewhere = false;
+        let mut qos_wrong = false;
+        let mut late = false;
+        let mut chosen: Option<usize> = None;
+        let single = self.spec.conns[conn].posvecs.len() == 1;
+        // subscriptions still in force first, then those whose UNSUBSCRIBE was
+        // accepted (the broker may finish what it had buffered for them)
+        let mut order: Vec<usize> = (0..n)
+            .filter(|si| self.spec.conns[conn].session.subs[*si].end.is_none())
+            .collect();
+        order.extend((0..n).filter(|si| self.spec.conns[conn].session.subs[*si].end.is_some()));
+        for si in order {
+            let s = &self.spec.conns[conn].session.subs[si];
+            if !spec_matches(topic, &self.spec.flogs[s.flog].filter) {
+                continue;
+            }
+            matching_any = true;
+            let Some(t0) = s.retained_t0 else { continue };
+            if s.group.is_some() {
+                continue;
+            }
+            matching_pending = true;
+            if s.retained_seen.iter().any(|t| t == topic) {
+                already_seen = true;
+                continue;
+            }
+            let (vals, unspecified) = self.spec.retained_window(topic, t0);
+            let ok = vals.iter().any(|v| v.as_deref() == Some(payload))
+                || (unspecified && self.spec.retained_ever(topic, payload));
+            if !ok {
+                continue;
+            }
+            value_ok_somewhere = true;
+            if !s.qos_hist.iter().any(|(_, q)| *q == qos) {
+                qos_wrong = true;
+                continue;
+            }
+            // replay precedes the live messages of that subscription
+            if single && s.first_live_seen && s.end.is_none() {
+                let started = self.spec.conns[conn].posvecs[0].pos[si] > s.pos;
+                if started {
+                    late = true;
+                    continue;
+                }
+            }
+            chosen = Some(si);
+            break;
+        }
+        if let Some(si) = chosen {
+            self.spec.conns[conn].session.subs[si]
+                .retained_seen
+                .push(topic.to_string());
+            self.rep.probe("retained_replay_attributed");
+            return;
+        }
+        let (class, why) = if !matching_any {
+            ("retained_no_matching_subscription", "no subscription of this client matches that topic")
+        } else if !matching_pending {
+            ("retained_replay_unexpected", "no new non-shared subscription of this client is owed a retained replay (repeated or shared subscription, or a live copy flagged retained)")
+        } else if late {
+            ("retained_after_live", "the replay arrived after live messages of that subscription")
+        } else if qos_wrong {
+            ("retained_qos", "wrong QoS for the subscription")
+        } else if already_seen && !value_ok_somewhere {
+            ("retained_replayed_twice", "this topic's retained message was already replayed to that subscription")
+        } else if already_seen {
+            ("retained_replayed_twice", "this topic's retained message was already replayed to that subscription")
+        } else {
+            ("retained_stale_or_cleared_value", "that payload was not the retained message of the topic at any moment since the subscription was accepted")
+        };
+        self.viol(
+            class,
+            format!("c{c} received retained {topic}/{p} at QoS {qos}: {why}"),
+        );
+    }
+
+    /// C17: a forward to a member through its shared subscription.
+    fn on_shared_forward(&mut self, l: usize, conn: usize, topic: &str, payload: &[u8], qos: u8) {
+        let c = self.links[l].client;
+        let p = String::from_utf8_lossy(payload).to_string();
+        let check = self.prop == P::C17;
+        let n = self.spec.conns[conn].session.subs.len();
+        let mut failure: Option<(&'static str, String)> = None;
+        for si in 0..n {
+            let (gname, flog, sq, path) = {
+                let s = &self.spec.conns[conn].session.subs[si];
+                let Some(g) = &s.group else { continue };
+                if !spec_matches(topic, &self.spec.flogs[s.flog].filter) {
+                    continue;
+                }
+                (g.clone(), s.flog, s.qos, s.path.clone())
+            };
+            let entries = &self.spec.flogs[flog].entries;
+            let Some(j) = entries.iter().position(|i| {
+                let a = &self.spec.accepted[*i as usize];
+                a.topic == topic && a.payload == payload
+            }) else {
+                failure = Some(("shared_unknown_message", format!("c{c} received {topic}/{p} through {path}, which nobody published")));
+                continue;
+            };
+            let alive: Vec<bool> = self.spec.conns.iter().map(|k| k.alive).collect();
+            // buffered before the member left (its UNSUBSCRIBE was accepted
+            // later than this message) or before its connection ended
+            let sub_end = self.spec.conns[conn].session.subs[si].end;
+            let leftover_ok = !alive[conn] || sub_end.map(|e| j < e).unwrap_or(false);
+            let member_now = self
+                .spec
+                .groups
+                .get(&gname)
+                .map(|g| g.members.contains(&conn))
+                .unwrap_or(false);
+            if !member_now && !leftover_ok {
+                failure = Some(("shared_delivery_to_non_member", format!("c{c} received {topic}/{p} through {path} although it is not (or no longer) a member of group {gname} and the message was accepted after it left")));
+                continue;
+            }
+            let Some(gm) = self.spec.groups.get_mut(&gname) else {
+                // the group's life has ended; nothing left to account against
+                return;
+            };
+            if gm.mixed || gm.flog != flog {
+                self.rep.probe("shared_group_mixed_filters_unchecked");
+                return;
+            }
+            if sq != qos {
+                failure = Some(("shared_qos", format!("c{c} received {topic}/{p} through {path} at QoS {qos}, granted {sq}")));
+                continue;
+            }
+            if let Some(prev) = gm.delivered.get(&j) {
+                // at-least-once redelivery: the earlier recipient went away
+                // without acknowledging a QoS>0 copy
+                let redelivery_ok = prev
+                    .iter()
+                    .all(|d| d.qos > 0 && !d.acked && !alive[d.conn] && d.conn != conn);
+                if !redelivery_ok {
+                    let who: Vec<usize> = prev.iter().map(|d| d.conn).collect();
+                    let class = if gm.member_left {
+                        "shared_duplicate_delivery:after_member_left"
+                    } else {
+                        "shared_duplicate_delivery"
+                    };
+                    failure = Some((class, format!("{topic}/{p} was forwarded through group {gname} to connection(s) {who:?} and now again to c{c}")));
+                    continue;
+                }
+                self.rep.probe("shared_redelivery_after_disconnect");
+            } else if let Some(last) = gm.last_j.get(&conn) {
+                if j <= *last {
+                    failure = Some(("shared_member_order", format!("c{c} received {topic}/{p} (position {j}) after position {last} of the same group")));
+                    continue;
+                }
+            }
+            gm.delivered.entry(j).or_default().push(Delivery {
+                conn,
+                qos,
+                acked: false,
+            });
+            let e = gm.last_j.entry(conn).or_insert(j);
+            if j > *e {
+                *e = j;
+            }
+            if qos > 0 {
+                if let Some(a) = self.links[l].awaiting.back_mut() {
+                    a.1 = Some((gname.clone(), j));
+                }
+            }
+            self.rep.probe("shared_forward_attributed");
+            return;
+        }
+        if !check {
+            return;
+        }
+        if let Some((class, msg)) = failure {
+            self.viol(class, msg);
         }
     }
 
@@ -1268,7 +1561,8 @@ impl World {
         }
         for (c, cl) in self.clients.iter().enumerate() {
             let Some(l) = cl.link else {
-                if !self.quiescing && can_send && cl.connects < 4 {
+                let max_connects = if self.cfg.will_once && cl.has_will { 1 } else { 4 };
+                if !self.quiescing && can_send && cl.connects < max_connects {
                     v.push((Act::Connect(c), 4));
                 }
                 continue;
@@ -1420,8 +1714,20 @@ impl World {
                         Owed::PubAck(p) => (SimPkt::PubAck(p), p),
                         Owed::PubRec(p) => (SimPkt::PubRec(p), p),
                     };
-                    if let Some(pos) = self.links[l].awaiting.iter().position(|x| *x == id) {
-                        self.links[l].awaiting.remove(pos);
+                    if let Some(pos) = self.links[l].awaiting.iter().position(|x| x.0 == id) {
+                        if let Some((_, Some((g, j)))) = self.links[l].awaiting.remove(pos) {
+                            // acknowledged: a later redelivery through the group is a duplicate
+                            let conn = self.links[l].conn;
+                            if let Some(gm) = self.spec.groups.get_mut(&g) {
+                                if let Some(ds) = gm.delivered.get_mut(&j) {
+                                    for d in ds.iter_mut() {
+                                        if Some(d.conn) == conn {
+                                            d.acked = true;
+                                        }
+                                    }
+                                }
+                            }
+                        }
                     }
                     self.push(l, pkt);
                 }
@@ -1444,8 +1750,8 @@ impl World {
                 let mut filters = Vec::new();
                 for _ in 0..n {
                     let f = self.cfg.filters[self.ch.pick(self.cfg.filters.len() as u32) as usize].to_string();
-                    let already = self.clients[c].subscribed.contains(&f)
-                        || filters.iter().any(|(x, _): &(String, u8)| *x == f);
+                    let already = self.clients[c].subscribed.iter().any(|x| *x == f || x.ends_with(&format!("/{f}")) && x.starts_with("$share/"))
+                        || filters.iter().any(|(x, _): &(String, u8)| *x == f || x.ends_with(&format!("/{f}")) && x.starts_with("$share/"));
                     if already && !self.cfg.resub {
                         continue;
                     }
@@ -1465,7 +1771,15 @@ impl World {
                             }
                         }
                     }
-                    let f = if self.cfg.shared && self.ch.coin(1, 2) {
+                    let f = if self.cfg.members > 0 {
+                        // C17: members use shared subscriptions only, one group per filter
+                        if c < self.cfg.members {
+                            let gi = self.cfg.filters.iter().position(|x| *x == f).unwrap_or(0);
+                            format!("$share/g{gi}/{f}")
+                        } else {
+                            f
+                        }
+                    } else if self.cfg.shared && self.ch.coin(1, 2) {
                         format!("$share/g{}/{f}", self.ch.pick(2))
                     } else {
                         f
@@ -1878,6 +2192,29 @@ impl World {
                 .find(|(f, _, _)| f == filter)
                 .map(|(_, head, _)| *head)
         };
+        if complete && self.prop == P::C17 {
+            // what the router pushed to members whose link had already ended
+            // counts as forwarded (the statement says forwarded, not received)
+            for l in 0..self.links.len() {
+                if self.links[l].state != LState::Ended {
+                    continue;
+                }
+                let left = match self.links[l].dead_rx.as_ref() {
+                    Some(rx) => rx.verif_leftover(),
+                    None => continue,
+                };
+                for n in left {
+                    if let Notification::Forward(f) = n {
+                        let (_d, q, _p) = f.publish.verif_meta();
+                        let topic = String::from_utf8_lossy(&f.publish.topic).to_string();
+                        if !f.publish.retain {
+                            self.rep.probe("forward_left_in_dead_buffer");
+                            self.attribute(l, &topic, &f.publish.payload, qos_num(q), false, &f);
+                        }
+                    }
+                }
+            }
+        }
         // obligations of the possible assignments: the skipped elements must
         // have been discarded by the broker's log
         for conn in 0..self.spec.conns.len() {
@@ -1924,7 +2261,48 @@ impl World {
             kept.dedup();
             self.spec.conns[conn].posvecs = kept;
         }
-        if !complete || !matches!(self.prop, P::C01 | P::C09 | P::C14 | P::C08) {
+        if complete && matches!(self.prop, P::C06 | P::C14) && !self.done() {
+            for conn in 0..self.spec.conns.len() {
+                let k = &self.spec.conns[conn];
+                if !k.alive {
+                    continue;
+                }
+                let l = k.link;
+                if self.links[l].state != LState::Up {
+                    continue;
+                }
+                let c = self.links[l].client;
+                if let Some(e) = k.exp_acks.front() {
+                    let class = format!("reply_missing_at_quiescence:{}", kind(e));
+                    let n = k.exp_acks.len();
+                    let e = e.clone();
+                    let cs = snap.connections.iter().find(|x| x.client_id == self.clients[c].id);
+                    let state = cs
+                        .map(|x| format!("status={} scheduled={} inflight={} outgoing={}", x.status, snap.readyqueue.contains(&x.id), x.inflight, x.outgoing_len))
+                        .unwrap_or_default();
+                    self.viol(
+                        class,
+                        format!("at quiescence c{c} still awaits {n} repl(y/ies), first {e:?}; broker state: {state}"),
+                    );
+                    return;
+                }
+                if let Some(p) = k.exp_pubrels.front() {
+                    let p = *p;
+                    self.viol(
+                        "reply_missing_at_quiescence:pubrel",
+                        format!("at quiescence c{c} still awaits PUBREL({p}) for its PUBREC"),
+                    );
+                    return;
+                }
+            }
+        }
+        if complete && self.prop == P::C15 && !self.done() {
+            self.check_retained_complete();
+        }
+        if complete && self.prop == P::C17 && !self.done() {
+            self.check_groups_complete(snap);
+        }
+        if !complete || !matches!(self.prop, P::C01 | P::C09 | P::C14 | P::C08 | P::C16) {
             return;
         }
         for conn in 0..self.spec.conns.len() {
@@ -2017,6 +2395,151 @@ impl World {
                     format!(
                         "at quiescence c{c} is still owed {missing} message(s) on {path}, first {t}/{p}; broker state: {state}"
                     ),
+                );
+                return;
+            }
+        }
+    }
+}
+
+impl World {
+    /// C15 completeness: a new subscription has received the retained
+    /// message of every matching topic whose retained value did not change
+    /// since the subscription was accepted, if they fit the delivery window.
+    fn check_retained_complete(&mut self) {
+        for conn in 0..self.spec.conns.len() {
+            if !self.spec.conns[conn].alive {
+                continue;
+            }
+            let l = self.spec.conns[conn].link;
+            if self.links[l].state != LState::Up || self.clients[self.links[l].client].link != Some(l) {
+                continue;
+            }
+            let c = self.links[l].client;
+            for si in 0..self.spec.conns[conn].session.subs.len() {
+                let s = &self.spec.conns[conn].session.subs[si];
+                let Some(t0) = s.retained_t0 else { continue };
+                if s.group.is_some() || s.end.is_some() || s.gone {
+                    continue;
+                }
+                let filter = self.spec.flogs[s.flog].filter.clone();
+                let mut stable: Vec<String> = Vec::new();
+                let mut unstable = 0usize;
+                let mut topics: Vec<&String> = self.spec.retained.keys().collect();
+                topics.sort();
+                for t in topics {
+                    if !spec_matches(t, &filter) {
+                        continue;
+                    }
+                    let (vals, unspecified) = self.spec.retained_window(t, t0);
+                    if unspecified || vals.len() > 1 {
+                        unstable += 1;
+                    } else if matches!(vals.first(), Some(Some(_))) {
+                        stable.push(t.clone());
+                    }
+                }
+                let window = if s.qos == 0 {
+                    self.cfg.max_outgoing as usize
+                } else {
+                    100usize.saturating_sub(self.links[l].qos_forwards as usize)
+                };
+                let seen = s.retained_seen.len();
+                if stable.len() + unstable <= window {
+                    if let Some(t) = stable.iter().find(|t| !s.retained_seen.contains(t)) {
+                        let path = s.path.clone();
+                        let t = t.clone();
+                        self.viol(
+                            "retained_not_replayed",
+                            format!("c{c} subscribed {path} (new subscription) but never received the retained message of {t}, which was set before and unchanged since"),
+                        );
+                        return;
+                    }
+                } else if s.qos == 0 && seen < stable.len().min(window) {
+                    let path = s.path.clone();
+                    self.viol(
+                        "retained_not_replayed:fewer_than_window",
+                        format!("c{c} subscribed {path}: {seen} retained messages replayed, at least {} fit the window", stable.len().min(window)),
+                    );
+                    return;
+                }
+            }
+        }
+    }
+
+    /// C17 completeness: every message accepted while a group had members
+    /// has been forwarded to some member.
+    fn check_groups_complete(&mut self, snap: &hook::VerifSnapshot) {
+        let mut names: Vec<String> = self.spec.groups.keys().cloned().collect();
+        names.sort();
+        for g in names {
+            let gm = &self.spec.groups[&g];
+            if gm.mixed {
+                continue;
+            }
+            // at least one member still connected and reading
+            let live_member = gm.members.iter().any(|m| {
+                let k = &self.spec.conns[*m];
+                k.alive && self.links[k.link].state == LState::Up && !self.spec.conns[*m].unchecked
+            });
+            if !live_member {
+                continue;
+            }
+            let fl = &self.spec.flogs[gm.flog];
+            let head = snap
+                .filters
+                .iter()
+                .find(|(f, _, _)| *f == fl.filter)
+                .map(|(_, h, _)| *h as usize)
+                .unwrap_or(0);
+            let from = gm.start.max(head);
+            let missing: Vec<usize> = (from..fl.entries.len())
+                .filter(|j| !gm.delivered.contains_key(j))
+                .collect();
+            if let Some(j) = missing.first() {
+                let a = &self.spec.accepted[fl.entries[*j] as usize];
+                let (t, p) = (a.topic.clone(), String::from_utf8_lossy(&a.payload).to_string());
+                let gs = snap.groups.iter().find(|x| x.name == g);
+                let state = match gs {
+                    None => "group unknown to the broker".to_string(),
+                    Some(x) => {
+                        let cur = x.current.clone().unwrap_or_default();
+                        let cs = snap.connections.iter().find(|k| k.client_id == cur);
+                        format!(
+                            "broker group members={:?} current={cur} cursor={:?} current-member-state={:?}",
+                            x.members,
+                            x.cursor,
+                            cs.map(|k| (k.status, snap.readyqueue.contains(&k.id), k.tracked.len(), k.parked.len(), k.inflight, k.outgoing_len))
+                        )
+                    }
+                };
+                let class = match gs {
+                    None => "shared_undelivered_at_quiescence:group_missing_in_broker",
+                    Some(x) if x.members.len() < gm.members.len() => "shared_undelivered_at_quiescence:member_missing_in_broker",
+                    Some(x) => {
+                        // the request of the member whose turn it is sits parked in the
+                        // waiters although the group's log has unread messages
+                        let cur = x.current.clone().unwrap_or_default();
+                        let parked = snap
+                            .connections
+                            .iter()
+                            .find(|k| k.client_id == cur)
+                            .map(|k| {
+                                let path = format!("$share/{g}/{}", fl.filter);
+                                k.parked.iter().any(|(f, _)| *f == path)
+                            })
+                            .unwrap_or(false);
+                        if parked {
+                            "shared_undelivered_at_quiescence:member_whose_turn_it_is_is_parked"
+                        } else {
+                            "shared_undelivered_at_quiescence"
+                        }
+                    }
+                };
+                let n = missing.len();
+                let members = gm.members.len();
+                self.viol(
+                    class,
+                    format!("at quiescence {n} message(s) accepted for group {g} ({members} member(s)) were forwarded to no member, first {t}/{p}; {state}"),
                 );
                 return;
             }
